@@ -48,16 +48,19 @@ type invokeState struct {
 type Monitor struct {
 	w *World
 	Model
-	role       map[int]interface{} // fn id -> *Reg | *Dec
-	okExecs    map[int]int
-	viol       []Violation
-	seen       map[string]bool
-	stats      map[string]int
-	situ       map[string]int // resolution situations observed
-	pend       *pendingCall
-	inv        *invokeState
-	cbPending  map[int]*ExecRec
-	invInfos   map[int]*invInfo
+	role      map[int]interface{} // fn id -> *Reg | *Dec
+	okExecs   map[int]int
+	viol      []Violation
+	seen      map[string]bool
+	stats     map[string]int
+	situ      map[string]int // resolution situations observed
+	pend      *pendingCall
+	inv       *invokeState
+	cbPending map[int]*ExecRec
+	invInfos  map[int]*invInfo
+	// reentrant: a user function has called back into the container. The spec state does not model
+	// nested resolution; from then on only the rules that need no model stay armed.
+	reentrant  bool
 	maxFrames  int
 	checkDepth bool
 	pcs        [8192]uintptr
@@ -72,8 +75,15 @@ func newMonitor(w *World) *Monitor {
 	return m
 }
 
+var reentrantRules = map[string]bool{"C02.nested": true, "C02.twice": true, "C07.tainted": true, "C14.panic": true,
+	"C03.outside-invoke": true, "C17.dry-executed": true}
+
 func (m *Monitor) violate(props string, rule string, f string, a ...interface{}) {
 	if m.seen[rule] {
+		return
+	}
+	if m.reentrant && !reentrantRules[rule] {
+		m.stats["reentrant.rule-suppressed"]++
 		return
 	}
 	m.seen[rule] = true
@@ -914,14 +924,21 @@ func (m *Monitor) afterInvoke(i int, op *Op, f *Fn, rec *OpRec) {
 			m.violate("C05,C13", "C05.invoke-must-cycle", "a dependency cycle is the only reason to fail but verdict is %s (%v)", cl, rec.Err)
 		}
 		if cl == VCycle && !m.gpCyclic(true) {
-			m.violate("C05,C13", "C05.invoke-spurious-cycle", "Invoke reports a cycle but the permissive graph (with decorators) is acyclic: %v", rec.Err)
+			m.violate("C05,C13,C04,C08,C16", "C05.invoke-spurious-cycle", "Invoke reports a cycle but the permissive graph (with decorators) is acyclic: %v", rec.Err)
 		}
 		if cl != VCycle && !st.cycAll && cl != VPanic {
 			switch st.av {
 			case avYes:
 				m.stats["invoke.avail-yes"]++
 				if cl != VOk {
-					m.violate("C04,C08", "C04.should-succeed", "every dependency of f%d is available from s%d but Invoke failed: %s %v", f.ID, op.Scope, cl, rec.Err)
+					props := "C04,C08"
+					for id := range st.may {
+						if _, ok := m.role[id].(*Dec); ok {
+							// a decorator is in the closure: consumers below it must still be served
+							props = "C04,C08,C12"
+						}
+					}
+					m.violate(props, "C04.should-succeed", "every dependency of f%d is available from s%d but Invoke failed: %s %v", f.ID, op.Scope, cl, rec.Err)
 				}
 			case avNo:
 				m.stats["invoke.avail-no"]++
